@@ -66,6 +66,10 @@ pub struct Plan {
     pub nkeys: usize,
     /// threads[i] = (recorder index 0|1, ops). All Describe ops of a recorder live in one thread.
     pub threads: Vec<(u8, Vec<Op>)>,
+    /// values recorded into histogram key 0 of recorder 0 before the threads start (its sample
+    /// bucket holds 64 values per block)
+    #[serde(default)]
+    pub hist_prefill: u32,
 }
 
 type Entry = (u8, Option<usize>, Option<String>, Option<String>, Val);
@@ -167,7 +171,8 @@ impl Scenario for C19Debugging {
             let ops = gen_ops(r, true, true);
             threads.push((1, ops));
         }
-        Plan { nkeys, threads }
+        let hist_prefill = *r.pick(&[0u32, 0, 0, 62, 63, 64, 65, 130]);
+        Plan { nkeys, threads, hist_prefill }
     }
     fn execute(&self, plan: &Plan, sched: &SchedSpec) -> RunReport {
         let hist: Arc<Mutex<Vec<Ev>>> = Arc::new(Mutex::new(vec![]));
@@ -176,6 +181,18 @@ impl Scenario for C19Debugging {
         let sim = simulate(sched, 150_000, move || {
             let recs: Arc<Vec<DebuggingRecorder>> = Arc::new(vec![DebuggingRecorder::new(), DebuggingRecorder::new()]);
             let snaps: Arc<Vec<Snapshotter>> = Arc::new(recs.iter().map(|r| r.snapshotter()).collect());
+            if p.hist_prefill > 0 {
+                dsim::passthrough(true);
+                metrics::with_local_recorder(&recs[0], || {
+                    for i in 0..p.hist_prefill {
+                        let tag = (1_000_000 + i as u64) as f64;
+                        let k = build_key(0, 0);
+                        metrics::with_recorder(|r| r.register_histogram(&k, &MD)).record(tag);
+                        h2.lock().unwrap().push(Ev { rec: 0, tid: 0, inv: 0, ret: 0, op: Op::HRec { key: 0, variant: 0 }, tag: tag.to_bits(), snap: vec![] });
+                    }
+                });
+                dsim::passthrough(false);
+            }
             let mut hs = vec![];
             for (ti, (ri, ops)) in p.threads.iter().enumerate() {
                 let ops = ops.clone();
@@ -256,6 +273,9 @@ impl Scenario for C19Debugging {
     }
     fn shrink(&self, p: &Plan) -> Vec<Plan> {
         let mut out = vec![];
+        if p.hist_prefill > 0 {
+            out.push(Plan { hist_prefill: if p.hist_prefill > 65 { 65 } else { 0 }, ..p.clone() });
+        }
         if p.threads.len() > 1 {
             for i in 0..p.threads.len() {
                 let mut q = p.clone();
